@@ -310,7 +310,7 @@ func trunc(b []byte) string {
 	return string(b)
 }
 
-var nextPort int
+var nextPort, socketCases int
 
 // freePort hands out port triples from a range that belongs to this shard alone (other
 // shards and other checks run at the same time and must not pick the same numbers), below
@@ -624,6 +624,13 @@ func TestSelectConcurrent(t *testing.T) {
 	r.Rapid(t, "TestSelectConcurrent", r.Pick(300, 4000), func(rt *rapid.T) {
 		c := concCase{UDP: rapid.IntRange(0, 3).Draw(rt, "udp") == 0}
 		c.Socket = rapid.IntRange(0, 9).Draw(rt, "socket") == 0
+		if c.Socket {
+			// every socket-listener server leaves its listening sockets behind (the listener
+			// has no Close): a bounded number per process, from a bounded port range
+			if socketCases++; socketCases > 100 {
+				c.Socket = false
+			}
+		}
 		ns := rapid.IntRange(1, 3).Draw(rt, "nsvc")
 		for i := 0; i < ns; i++ {
 			if i == ns-1 && rapid.Bool().Draw(rt, "lastplain") {
